@@ -59,7 +59,7 @@ EXHAUSTIVE = {"quick": False, "thorough": False}
 
 def plan(tier, seed):
     specs = []
-    nrand = 1500 if tier == "quick" else 20000
+    nrand = 1500 if tier == "quick" else 12000
     for i in range(nrand):
         specs.append({"kind": "rand", "ndim": 1 + i % 3, "depth": 15 if i % 10 else 40})
     depth = 2 if tier == "quick" else 3
@@ -96,7 +96,7 @@ def setup(ctx):
                 return
             for v in pick(a, res):
                 if isinstance(v, V):
-                    _class_invariant(ctx, v, S.fields(), "hook")
+                    _class_invariant(ctx, v, S.fields, "hook")
 
         return post
 
@@ -117,8 +117,8 @@ def _same(a, b):
         return a is None and b is None
     if not isinstance(a, np.ndarray) or not isinstance(b, np.ndarray) or a.shape != b.shape:
         return False
-    if a.size == 0:
-        return True
+    if a.size == 0 or (a.dtype == b.dtype and a.tobytes() == b.tobytes()):
+        return True  # (fast path: bit-identical)
     with np.errstate(all="ignore"):
         eq = a == b
         if a.dtype.kind in "fc" and b.dtype.kind in "fc":
@@ -151,21 +151,29 @@ def _nesting_ok(data, shape):
 
 
 def _class_invariant(ctx, v, fields, where):
-    f = dict(fields, where=where)
+    """fields: dict of classifier fields, or a zero-argument callable producing it (only needed on failure)"""
     try:
         shape, flds, units, nf, data = v.shape, v.fields, v.units, v.num_fields, v.data
     except Exception as e:  # noqa: BLE001
+        f = dict(fields() if callable(fields) else fields, where=where)
         ctx.check(False, "class_invariant", "reading public attributes raised %r" % (e,), inv="attributes", **f)
         return False
-    ok = True
-    ok &= ctx.check(isinstance(shape, tuple) and len(shape) >= 1 and all(isinstance(s, int) and s > 0 for s in shape), "class_invariant", "shape=%r" % (shape,), inv="shape", **f)
-    ok &= ctx.check(isinstance(flds, list) and all(isinstance(x, str) for x in flds) and len(set(flds)) == len(flds), "class_invariant", "fields=%r" % (flds,), inv="fields_unique", **f)
-    ok &= ctx.check(isinstance(units, list) and len(units) == len(flds) == nf and all(isinstance(x, str) for x in units), "class_invariant", "fields=%r units=%r num_fields=%r" % (flds, units, nf), inv="units_fields_one_to_one", **f)
-    good, leaves = _nesting_ok(data, shape) if isinstance(shape, tuple) else (False, [])
-    ok &= ctx.check(good, "class_invariant", lambda: "nested storage does not have shape %r: %s" % (shape, _brief(data)), inv="nesting", **f)
+    c_shape = isinstance(shape, tuple) and len(shape) >= 1 and all(isinstance(s, int) and s > 0 for s in shape)
+    c_fields = isinstance(flds, list) and all(isinstance(x, str) for x in flds) and len(set(flds)) == len(flds)
+    c_units = isinstance(units, list) and len(units) == len(flds) == nf and all(isinstance(x, str) for x in units)
+    good, leaves = _nesting_ok(data, shape) if c_shape else (False, [])
     bad = [c for c in leaves if c is not None and not (isinstance(c, np.ndarray) and c.ndim == 2)]
-    ok &= ctx.check(not bad, "class_invariant", lambda: "cell is not a 2-D array: %s" % _brief(bad[0]), inv="cell_not_2d", **f)
     bad2 = [c for c in leaves if isinstance(c, np.ndarray) and c.ndim == 2 and c.shape[1] != nf]
+    if c_shape and c_fields and c_units and good and not bad and not bad2:
+        ctx.counters["eval:class_invariant"] += 6  # the six conditions below, all satisfied
+        return True
+    f = dict(fields() if callable(fields) else fields, where=where)
+    ok = True
+    ok &= ctx.check(c_shape, "class_invariant", "shape=%r" % (shape,), inv="shape", **f)
+    ok &= ctx.check(c_fields, "class_invariant", "fields=%r" % (flds,), inv="fields_unique", **f)
+    ok &= ctx.check(c_units, "class_invariant", "fields=%r units=%r num_fields=%r" % (flds, units, nf), inv="units_fields_one_to_one", **f)
+    ok &= ctx.check(good, "class_invariant", lambda: "nested storage does not have shape %r: %s" % (shape, _brief(data)), inv="nesting", **f)
+    ok &= ctx.check(not bad, "class_invariant", lambda: "cell is not a 2-D array: %s" % _brief(bad[0]), inv="cell_not_2d", **f)
     ok &= ctx.check(not bad2, "class_invariant", lambda: "cell has %d columns for %d fields" % (bad2[0].shape[1], nf), inv="cell_columns", **f)
     return bool(ok)
 
@@ -310,8 +318,7 @@ class Sess:
         """run a call into the library -> (result, exception-or-None); harness faults are re-raised"""
         self.ctx.state["depth"] = 0
         try:
-            with np.errstate(all="ignore"):
-                return fn(), None
+            return fn(), None
         except Exception as e:  # noqa: BLE001
             through, _ = core.exception_origin(e)
             if not through:
@@ -349,7 +356,7 @@ class Sess:
         ctx.state["quiet"] += 1
         try:
             for j, (r, m) in enumerate(self.live):
-                if not _class_invariant(ctx, r, self.fields(), "step"):
+                if not _class_invariant(ctx, r, self.fields, "step"):
                     self.abort = True
                     continue
                 d = _state_diff(r, m)
@@ -375,14 +382,7 @@ class Sess:
     def flatten_laws(self, r, m):
         ctx = self.ctx
         f = self.fields()
-        cells = []
-        for ix in m.order():
-            c, exc = self.call(lambda: r.get_data(*ix))
-            if exc is not None:
-                ctx.check(False, "exception", "get_data%r raised %r" % (ix, exc), **self.fields(exc_type=type(exc).__name__, sub="cell_read"))
-                return
-            if c is not None:
-                cells.append(c)
+        cells = [c for c in _nesting_ok(r.data, m.shape)[1] if c is not None]  # row-major, nesting verified by the caller
         nf = len(m.fields)
         flat, exc = self.call(r.flatten)
         if self.expect_ok(exc, "flatten()"):
@@ -568,8 +568,7 @@ class Sess:
         m = self.m
         backup = m.clone()
         try:
-            with np.errstate(all="ignore"):
-                model_fn(m)
+            model_fn(m)
             valid = True
         except Invalid:
             valid = False
@@ -1130,6 +1129,11 @@ for _o in IOPS:
 
 
 def run_case(spec, idx, ctx):
+    with np.errstate(all="ignore"):
+        _run_case(spec, idx, ctx)
+
+
+def _run_case(spec, idx, ctx):
     rng = ctx.rng(idx)
     nd = int(spec["ndim"])
     S = Sess(ctx, rng, nd)
@@ -1162,9 +1166,10 @@ def run_case(spec, idx, ctx):
         S.op, S.extra = "final_roundtrip", {}
         if not S.abort:
             for j, (r, m) in enumerate(S.live):
+                S.cur = j
                 for name in list(m.fields):
                     _roundtrip(S, j, name, 0)
-            S.post_step(True)
+                S.post_step(True)
         schema = any(o in SCHEMA_OPS for o in S.done_ops)
         block = any(o in SLICE_OPS for o in S.done_ops)
         ctx.nontrivial("%d|%s" % (nd, ">".join(S.done_ops)), S.ragged and (schema or block))
